@@ -203,6 +203,47 @@ def run_shard(spec):
         res["viol"].extend(out[:6])
         if not res["samples"]:
             res["samples"].append(case)
+    # ---- one manager, set_design() called twice with the two kinds of specification (a flow-rate study): the design run must use
+    # the specification given last
+    if spec["shard"] % 4 == 0:
+        import contextlib
+        import io
+        import warnings
+
+        from vf.gen import config as GC
+        from vf.gen import loads as GL
+        from vf.gen import phys as GP
+        from vf.props import pool_common as PC
+
+        for k in range(2):
+            method = ["NEARSQUARE", "RECTANGLE", "BIRECTANGLE", "BIZONEDRECTANGLE"][(spec["shard"] // 4 + k) % 4]
+            first, second = (("BOREHOLE", "SYSTEM"), ("SYSTEM", "BOREHOLE"))[k % 2]
+            cfg = PC.make_cfg(g, method, GP.PIPES[(spec["shard"] + k) % 4], first, ["interior", "large"][k % 2], True, 36)
+            cfg["simulation"]["num_months"] = 12
+            cfg["loads_desc"]["scale"] = PC.scale_loads_for(cfg, cfg["_class"], g)
+            v2 = float(round(g.uniform(0.25, 0.6), 3)) if second == "BOREHOLE" else float(round(g.uniform(4.0, 12.0), 2))
+            case = {"kind": "manager-set_design-twice", "method": method, "first": [cfg["design"]["flow_rate"], first], "second": [v2, second]}
+            try:
+                with warnings.catch_warnings(), contextlib.redirect_stdout(io.StringIO()), contextlib.redirect_stderr(io.StringIO()):
+                    warnings.simplefilter("ignore")
+                    m = GC.build_manager(cfg, loads=GL.make_loads(cfg["loads_desc"]))
+                    m.set_design(flow_rate=v2, flow_type_str=second)
+                    tap.pop()
+                    try:
+                        m.find_design()
+                    except ValueError:
+                        pass
+                ev = tap.pop()
+            except Exception as e:  # noqa: BLE001
+                res["viol"].append({"mechanism": f"exception:{type(e).__name__}", "message": str(e)[:300], "case": case})
+                continue
+            out2 = []
+            judge_events(ev, out2, case)
+            used = {(e["type"], e["V"]) for e in ev if e["ev"] == "retrieve"}
+            if used and used != {(second, v2)}:
+                out2.append({"mechanism": "design-run-uses-an-earlier-flow-specification", "message": f"{method}: set_design({cfg['design']['flow_rate']}, {first}) then set_design({v2}, {second}); the search used {sorted(used)[:3]}", "case": case})
+            res["manager_twice"] = res.get("manager_twice", 0) + 1
+            res["viol"].extend(out2[:4])
     res["hits"] = tap.hits
     tap.uninstall()
     return res
@@ -227,6 +268,8 @@ def check(tier, seed):
         rep.evaluations += r["cases"]
         for k2 in ("direct_calls", "paired", "system_lists"):
             rep.count(k2, r[k2])
+        rep.count("design_runs_after_two_set_design_calls_on_one_manager", r.get("manager_twice", 0))
+        rep.evaluations += r.get("manager_twice", 0)
         for k2, v2 in r["hits"].items():
             hits[k2] = hits.get(k2, 0) + v2
         for nt in r["nontrivial"]:
